@@ -143,9 +143,14 @@ type inlVar struct {
 }
 
 // inlineNewHelpers returns overlay contents for files in which calls of unknown helpers were expanded, plus notes.
-func inlineNewHelpers(c *Ctx, known map[string]bool, seq *int) (map[string][]byte, []string) {
-	out := map[string][]byte{}
-	var notes []string
+func inlineNewHelpers(c *Ctx, known map[string]bool, seq *int) (out map[string][]byte, notes []string) {
+	defer func() {
+		if p := recover(); p != nil {
+			out = nil
+			notes = append(notes, fmt.Sprintf("expansion of new helpers abandoned (internal error: %v); analysing the tree as it is", p))
+		}
+	}()
+	out = map[string][]byte{}
 	for _, p := range c.Pkgs {
 		if !(p.PkgPath == modPath || strings.HasPrefix(p.PkgPath, modPath+"/")) || strings.Contains(p.PkgPath, "/zz_ref_") || p.TypesInfo == nil || len(p.Syntax) == 0 {
 			continue
@@ -374,6 +379,9 @@ func (in *inliner) findCall(e ast.Expr) *ast.CallExpr {
 	blocked := false
 	var walk func(e ast.Expr)
 	simple := func(e ast.Expr) bool {
+		if e == nil {
+			return true
+		}
 		ok := true
 		ast.Inspect(e, func(n ast.Node) bool {
 			switch x := n.(type) {
@@ -399,6 +407,9 @@ func (in *inliner) findCall(e ast.Expr) *ast.CallExpr {
 			if found != nil || blocked {
 				return
 			}
+			if a == nil {
+				continue
+			}
 			walk(a)
 			if found == nil && !simple(a) {
 				blocked = true
@@ -415,13 +426,16 @@ func (in *inliner) findCall(e ast.Expr) *ast.CallExpr {
 		case *ast.CallExpr:
 			if in.callees[calleeObj(in.p, x)] != nil {
 				// the function operand (receiver expression) and the arguments must themselves be free of earlier expandable calls
+				// an expandable call nested in the receiver or the arguments is expanded first when that is possible;
+				// otherwise this call is expanded as it stands (its operands are evaluated in order by the bindings)
 				var pre []ast.Expr
 				if se, ok := ast.Unparen(x.Fun).(*ast.SelectorExpr); ok {
 					pre = append(pre, se.X)
 				}
 				pre = append(pre, x.Args...)
 				walkList(pre)
-				if found == nil && !blocked {
+				if found == nil {
+					blocked = false
 					found = x
 				}
 				return
